@@ -110,7 +110,13 @@ def check(prop, tier="quick"):
             build.coq(["Properties/%s.vo" % prop])
     except build.BuildError as e:
         res["error"] = "coq build failed at %s:\n%s" % (e.stage, e.log[-3000:])
-        m = re.search(r'File "\./([^"]+)", line (\d+)', e.log)
+        # the location printed immediately before the first "Error" line (warnings print locations too)
+        m = None
+        for mm in re.finditer(r'File "\./([^"]+)", line (\d+)[^\n]*\n(Error|[^\n]*\nError)', e.log):
+            m = mm
+            break
+        if m is None:
+            m = re.search(r'File "\./([^"]+)", line (\d+)', e.log)
         res["failed_at"] = "%s:%s" % (m.group(1), m.group(2)) if m else None
         return res
     ths = theorems_of(prop_file)
